@@ -159,7 +159,7 @@ class Replica:
 CONFIG_OPS = ('set_mode', 'train_nas_only', 'train_net_only', 'train_net_and_nas', 'set_flag',
               'softmax_opts', 'set_cost_spec')
 OBSERVER_OPS = ('export', 'export_nobn', 'summary', 'cost', 'get_cost', 'str', 'switch_spec_and_back',
-                'named_params', 'state_dict')
+                'named_params', 'state_dict', 'nas_summary', 'export_and_eval')
 
 
 def data_for(cfg, run_seed, idx):
@@ -395,6 +395,26 @@ def apply_observer(rep, op):
     if k == 'state_dict':
         m.state_dict()
         return {'ok': 1}
+    if k == 'nas_summary':
+        # further read-only reporting helpers of the wrappers
+        if hasattr(m, 'nas_parameters_summary'):
+            m.nas_parameters_summary(post_sampling=bool(op.get('i', 0)))
+        elif hasattr(m, 'get_total_icv'):
+            m.get_total_icv()
+        else:
+            m.summary()
+        return {'ok': 1}
+    if k == 'export_and_eval':
+        # export, then evaluate the exported network on a batch (inference only), as a user checking the
+        # intermediate architecture would
+        e = m.export()
+        e.eval()
+        g = torch.Generator()
+        g.manual_seed(12345)
+        x = torch.rand((2,) + tuple(rep.cfg['spec']['in_shape']), generator=g)
+        with torch.no_grad():
+            guarded(lambda: e(x))
+        return {'export': 1}
     raise ValueError(k)
 
 
